@@ -1,5 +1,7 @@
 .PHONY: setup selftest
 setup:
+	@mkdir -p build
+	@test -d build/pydeps/numpy || /venv/bin/pip install -q --no-index --find-links /opt/veriftools/wheels --target build/pydeps numpy
 	@/venv/bin/python -m compileall -q vlib checks >/dev/null
 	@/venv/bin/python vlib/tlaval.py
 	@if [ -d vlib/minimysql/tests ]; then /venv/bin/python -m vlib.minimysql.tests.run; fi
